@@ -958,7 +958,7 @@ class Engine:
         first time the library asks - consistently with the class hierarchy."""
         if obj.cls.issubclass(cls):
             return True
-        if 'from_opaque' in obj.attrs and cls.issubclass(obj.cls) and not cls.builtin:
+        if 'from_opaque' in obj.attrs and cls.issubclass(obj.cls) and cls is not obj.cls:
             if any(cls.issubclass(n) for n in obj.attrs.get('not_instance_of', ())):
                 return False
             if self.path.choice(2, 'application-exception-is-a-%s' % cls.name) == 1:
@@ -1070,6 +1070,15 @@ class Engine:
         r = M.value_attr(self, obj, name)
         if r is not M.NOATTR:
             return r
+        # distinguish "Python raises AttributeError here" from "this method of a built-in type has no model": only the first is
+        # behaviour of the code; the second is a gap of the engine and must never look like an exception raised by the code
+        pytype = ((bytes if isinstance(obj, (bytes, SBytes)) else None) or (bytearray if isinstance(obj, (bytearray, SByteArray)) else None)
+                  or (bool if isinstance(obj, (bool, SBool)) else None) or (int if isinstance(obj, (int, SInt)) else None)
+                  or (str if isinstance(obj, (str, SStr)) else None) or (float if isinstance(obj, (float, SReal)) else None)
+                  or (type(obj) if isinstance(obj, (list, dict, tuple, set, frozenset)) else None)
+                  or (dict if isinstance(obj, SMap) else None))
+        if pytype is not None and hasattr(pytype, name):
+            raise Unsupported('%s.%s is not modelled' % (pytype.__name__, name))
         self.throw('AttributeError', "'%s' object has no attribute '%s'" % (type(obj).__name__, name))
 
     def init_assigned(self, cls):
